@@ -256,6 +256,8 @@ class WorkCalendarDiv(IWorkCalendar):
             if units is None:
                 units = c_units
             else:
+                if c_units == 0:
+                    raise RuntimeError(f"Can't divide calendar units by zero units on {date}")
                 units /= c_units
         return units
 
